@@ -4,7 +4,9 @@ Part A (predicates, a test): the six entry points of /repo are run on signed / n
 low-rank data, orders 2-4, iteration caps 0..K, built-in and entrywise non-negative user initialisations, normalisation on/off,
 subsets of non-negative modes, sparsity coefficients, exact flag, fixed modes, both core solvers, PARAFAC2 with and without
 line search; every returned entry of a DECLARED mode must be >= 0 (NaN fails); undeclared modes are not inspected.
-Part B (correspondence): the formula layer of Model/Nonneg.v is executed inside Coq over Q (Corr/C10.v) on the inputs given to the
+Part B (correspondence; since round 5 the complete MU-CP / HALS-CP / Tucker-HALS runs go through the entry functions of Model/NonnegOptions.v with the RAW
+fixed_modes / nn_modes / sparsity options, and corr:C10-static runs the proved sign analysis on the bodies regenerated from the current source):
+the formula layer of Model/Nonneg.v is executed inside Coq over Q (Corr/C10.v) on the inputs given to the
 implementation and compared, toleranced, with the implementation's outputs: complete non_negative_parafac runs (user init, tol=0),
 hals_nnls sweeps, fista iterations, cp_normalize, tucker_normalize, the non_negative_tucker factor/core update of one sweep
 (numerators / denominators recomputed here with numpy from the returned Gauss-Seidel state) and the PARAFAC2 line-search step."""
@@ -14,7 +16,7 @@ import numpy as np
 from harness import common as C
 
 HEADER = """From Coq Require Import List ZArith QArith Bool. Import ListNotations.
-From TLV Require Import Base.Shape Base.PyList Base.Tensor Base.Ops Model.Nonneg Model.NonnegSign Corr.C10.
+From TLV Require Import Base.Shape Base.PyList Base.Tensor Base.Ops Model.Nonneg Model.NonnegSign Model.NonnegOptions Corr.C10.
 Local Open Scope nat_scope."""
 EPD = "tensorly.decomposition."
 ENTRY = {"nn_cp_mu": EPD + "non_negative_parafac", "nn_cp_hals": EPD + "non_negative_parafac_hals",
@@ -406,6 +408,37 @@ def gen_hals_lastfixed_configs(tier, rng):
                    opts=dict(tol=0, normalize=rng.random() < 0.4, fixed_modes=sorted(fixed), sparsity=None, exact=False, cvg="abs_rec_error"))
 
 
+def gen_convergence_exit_configs(tier, rng):
+    """every entry point with a LARGE tolerance and caps 3-5: the convergence exit (`break` after the stopping test, with its own normalisation branch) is
+    what returns, on signed data that the model fits badly (large final error)"""
+    for k in range(2 if tier == "quick" else 10):
+        for algo in ("nn_cp_mu", "nn_cp_hals", "nn_tucker_mu", "nn_tucker_hals", "nn_tucker_hals", "ccp", "parafac2"):
+            order = 3 if algo == "parafac2" else rng.choice([2, 3])
+            shape = tuple(rng.randint(2, 4) for _ in range(order))
+            klass = rng.choice(["signed", "signed", "sparse", "negative"])
+            X = gen_tensor(rng, shape, klass)
+            rank = rng.choice([1, 2])
+            nm = rng.random() < 0.5
+            n = rng.choice([3, 4, 5])
+            base = dict(tensor=X, klass=klass + ":cvg", rs=rng.randrange(10 ** 6), n=n)
+            if algo == "nn_cp_mu":
+                yield dict(base, algo=algo, rank=rank, init=rng.choice(["svd", "random"]), nn_modes="all",
+                           opts=dict(tol=0.5, normalize=nm, fixed_modes=None, mask=None, cvg=rng.choice(["abs_rec_error", "rec_error"])))
+            elif algo == "nn_cp_hals":
+                yield dict(base, algo=algo, rank=rank, init=rng.choice(["svd", "random"]), nn_modes="all",
+                           opts=dict(tol=0.5, normalize=nm, fixed_modes=None, sparsity=None, exact=False, cvg=rng.choice(["abs_rec_error", "rec_error"])))
+            elif algo == "nn_tucker_mu":
+                yield dict(base, algo=algo, rank=[min(2, s_) for s_ in shape], init=rng.choice(["svd", "random"]), nn_modes="all", opts=dict(tol=0.5, normalize=nm))
+            elif algo == "nn_tucker_hals":
+                yield dict(base, algo=algo, rank=[min(2, s_) for s_ in shape], init=rng.choice(["svd", "random"]), nn_modes="all",
+                           opts=dict(tol=0.5, normalize=nm, fixed_modes=None, sparsity=None, algorithm="fista" if k % 2 == 0 else "active_set", core_sparsity=None, exact=False))
+            elif algo == "ccp":
+                yield dict(base, algo=algo, rank=rank, init=rng.choice(["svd", "random"]), nn_modes=True, opts=dict(tol=0.5, inner=3, fixed_modes=None, other=None))
+            else:
+                yield dict(base, algo=algo, rank=min(rank, shape[1], shape[2]), init="random", nn_modes=rng.choice(["all", [0, 2]]),
+                           opts=dict(tol=0.5, normalize=nm, linesearch=False, n_iter_parafac=2))
+
+
 def quiet_run(cfg):
     with warnings.catch_warnings():
         warnings.simplefilter("ignore")
@@ -597,6 +630,8 @@ def run(chk):
         evaluate_cfg(chk, cfg, stats)
     for cfg in gen_hals_lastfixed_configs(chk.tier, rng):
         evaluate_cfg(chk, cfg, stats)
+    for cfg in gen_convergence_exit_configs(chk.tier, rng):
+        evaluate_cfg(chk, cfg, stats)
     for cfg in gen_solver_cfgs(chk.tier, rng):
         evaluate_solver(chk, cfg, stats)
     stage("decomposition_runs")
@@ -609,7 +644,8 @@ def run(chk):
                        "non-unit weights} x caps {0,1,2,3,6} for non_negative_parafac, non_negative_parafac_hals (nn_modes all/None/subsets, sparsity, exact, fixed modes), non_negative_tucker, "
                        "non_negative_tucker_hals (fista / active_set, sparsity, fixed modes), constrained_parafac(non_negative = True / mode dict, inner caps 1/3/10), parafac2 (tensor or ragged "
                        "slices, nn_modes incl. 'all', line search on/off, caps 0-11) + dedicated line-search runs + non_negative_tucker(_hals) with init='svd' on standard-normal data at caps 0/1/5 "
-                       "+ parafac2(nn_modes=[0,2], default line search) on signed / sparse slices at odd caps 7/9/11 (140 / 600 runs) + direct solver calls; predicate: every entry of a declared mode, weights, core >= 0; "
+                       "+ parafac2(nn_modes=[0,2], default line search) on signed / sparse slices at odd caps 7/9/11 (140 / 600 runs) + non_negative_parafac_hals with the last mode fixed and weights far from 1 at caps 0/1 "
+                       "+ every entry point with tol=0.5 at caps 3-5 (the convergence exits) + direct solver calls; predicate: every entry of a declared mode, weights, core >= 0; "
                        "a case is non-trivial always (no all-size-1 / all-zero tensors are generated); distinct key = (entry point, shape, class, init, cap, nn_modes, options). "
                        "part B: dyadic few-bit inputs (formula layer, MU runs) / float inputs (fixed-point runs, initialisers, constrained_parafac, one PARAFAC2 outer iteration), model evaluated "
                        "inside Coq, tolerance atol + 1e-9 (|a|+|b|). corr:C10-static: the bodies of non_negative_parafac, non_negative_parafac_hals (nn_modes='all'), non_negative_tucker, "
@@ -737,6 +773,26 @@ def finite_all(*arrs):
     return all(np.all(np.isfinite(np.asarray(a, float))) for a in arrs)
 
 
+def optfixed_lit(fixed):
+    return "(@None (list nat))" if fixed is None else f"(Some {C.nat_list(list(fixed))})"
+
+
+def spopt_lit(sps):
+    if sps is None:
+        return "SpNone"
+    if isinstance(sps, float):
+        return f"(SpScalar {C.q(sps)})"
+    return f"(SpList {opt_list_lit(sps)})"
+
+
+def quiet_call(f, timeout=60):
+    def g():
+        with warnings.catch_warnings():
+            warnings.simplefilter("ignore")
+            return f()
+    return C.call_impl(g, timeout=timeout)
+
+
 def corr_mu_cp(rng, tier):
     """complete runs of non_negative_parafac from a user initialisation, tol=0 (exactly n sweeps)"""
     from tensorly.decomposition import non_negative_parafac
@@ -760,15 +816,15 @@ def corr_mu_cp(rng, tier):
         Fs = [dy_mat(rng, s, rank, 0.25, 2, zero_prob=0.15) for s in shape]
         w = np.ones(rank) if rng.random() < 0.6 else np.array([rng.choice([0.5, 2.0, 1.0, 0.0 if rank > 1 else 1.5]) for _ in range(rank)])
         nm = rng.random() < 0.5 and not (order == 3 and rank > 1)      # normalised order-3 rank-2 runs cost minutes in exact rationals
-        fixed = [rng.randrange(order - 1)] if rng.random() < 0.3 else []
+        u = rng.random()
+        fixed = None if u < 0.35 else [] if u < 0.6 else [rng.randrange(order)] if u < 0.9 else sorted({rng.randrange(order), order - 1})
         n = rng.choice([0, 1, 1, 2] if (order == 2 and (rank == 1 or (not nm and tier != "quick"))) else [0, 1, 1])    # exact rationals grow fast with the depth
-        modes = [m for m in range(order) if m not in fixed]
-        st, r = C.call_impl(lambda: non_negative_parafac(X.copy(), rank, n_iter_max=n, init=(w.copy(), [f.copy() for f in Fs]), tol=0,
-                                                         normalize_factors=nm, fixed_modes=list(fixed)), timeout=60)
+        st, r = quiet_call(lambda: non_negative_parafac(X.copy(), rank, n_iter_max=n, init=(w.copy(), [f.copy() for f in Fs]), tol=0,
+                                                        normalize_factors=nm, fixed_modes=None if fixed is None else list(fixed)))
         if st != "ok" or not finite_all(r[0], *r[1]):
             continue
-        op = (f"(OMuCp {C.q(eps)} {C.qtensor(shape, [float(x) for x in X.reshape(-1)])} {qvec_lit(w)} {qmats_lit(Fs)} "
-              f"{C.boolc(nm)} {C.nat_list(modes)} {n}%nat)")
+        op = (f"(OMuCpE {C.q(eps)} {C.qtensor(shape, [float(x) for x in X.reshape(-1)])} {qvec_lit(w)} {qmats_lit(Fs)} "
+              f"{C.boolc(nm)} {optfixed_lit(fixed)} {n}%nat)")
         meta = {"corr": "non_negative_parafac", "tensor": X, "weights": w, "factors": Fs, "normalize": nm, "fixed": fixed, "n": n}
         out.append((op, ATOL_TINY, r[0], list(r[1]), meta))
     return out
@@ -1063,17 +1119,18 @@ def corr_hals_cp(rng, tier):
         fixed = [rng.randrange(order)] if rng.random() < 0.4 else []        # the last mode may be fixed here (weights then go into the last updated mode)
         modes = [m for m in range(order) if m not in fixed]
         nn = "all" if rng.random() < 0.5 else sorted(set(modes + ([fixed[0]] if fixed and rng.random() < 0.5 else [])))
-        sps = None if rng.random() < 0.6 else [rng.choice([None, 0.0, 0.1, 0.5]) for _ in range(order)]
+        u = rng.random()
+        sps = None if u < 0.55 else rng.choice([0.1, 0.5]) if u < 0.7 else [rng.choice([None, 0.0, 0.1, 0.5]) for _ in range(order)]
         n = rng.choice([0, 1, 1, 2]) if (rank == 1 or big) else rng.choice([0, 1, 1])     # rank >= 2: every inner call runs its 100 sweeps
-        st, r = C.call_impl(lambda: non_negative_parafac_hals(X.copy(), rank, n_iter_max=n, init=(w.copy(), [f.copy() for f in Fs]), tol=0,
-                                                              normalize_factors=nm, fixed_modes=list(fixed), nn_modes=nn,
-                                                              sparsity_coefficients=None if sps is None else list(sps)), timeout=120)
+        fixed_raw = None if (not fixed and rng.random() < 0.5) else list(fixed)
+        st, r = quiet_call(lambda: non_negative_parafac_hals(X.copy(), rank, n_iter_max=n, init=(w.copy(), [f.copy() for f in Fs]), tol=0,
+                                                             normalize_factors=nm, fixed_modes=None if fixed_raw is None else list(fixed_raw), nn_modes=nn,
+                                                             sparsity_coefficients=sps if not isinstance(sps, list) else list(sps)), timeout=120)
         if st != "ok" or not finite_all(r[0], *r[1]):
             continue
-        sps_model = [None] * order if sps is None else [None if m in fixed else sps[m] for m in range(order)]
-        nn_model = list(range(order)) if nn == "all" else nn
-        op = (f"(OHalsCp {C.qtensor(shape, [float(x) for x in X.reshape(-1)])} {qvec_lit(w)} {qmats_lit(Fs)} {C.nat_list(nn_model)} "
-              f"{opt_list_lit(sps_model)} {C.boolc(nm)} {C.nat_list(modes)} {n}%nat {C.q(1e-8)})")
+        nn_lit = "NNAll" if nn == "all" else f"(NNList {C.nat_list(nn)})"
+        op = (f"(OHalsCpE {C.qtensor(shape, [float(x) for x in X.reshape(-1)])} {qvec_lit(w)} {qmats_lit(Fs)} {optfixed_lit(fixed_raw)} {nn_lit} "
+              f"{spopt_lit(sps)} {C.boolc(nm)} {n}%nat {C.q(1e-8)})")
         scale = max(1.0, max(float(np.abs(f).max()) for f in r[1]), float(np.abs(r[0]).max()))
         meta = {"corr": "non_negative_parafac_hals", "tensor": X, "weights": w, "factors": Fs, "normalize": nm, "fixed": fixed, "nn_modes": nn,
                 "sparsity": sps, "n": n}
@@ -1098,14 +1155,16 @@ def corr_tucker_hals(rng, tier):
         Fs = [np.array([[rng.random() + 0.05 for _ in range(r)] for _ in range(s)]) for s, r in zip(shape, ranks)]
         core = np.array([rng.random() + 0.05 for _ in range(int(np.prod(ranks)))]).reshape(ranks)
         nm = rng.random() < 0.4
-        fixed = [rng.randrange(order - 1)] if rng.random() < 0.3 else []
-        modes = [m for m in range(order) if m not in fixed]
-        sps = None if rng.random() < 0.6 else [rng.choice([None, 0.0, 0.1, 0.5]) for _ in range(order)]
+        u = rng.random()      # raw fixed_modes: None, [], a mode (possibly the LAST one, which the entry point refuses to fix), a mode and the last one
+        fixed_raw = None if u < 0.3 else [] if u < 0.6 else [rng.randrange(order)] if u < 0.85 else sorted({rng.randrange(order - 1), order - 1})
+        fixed = [m for m in (fixed_raw or []) if m != order - 1]
+        u = rng.random()
+        sps = None if u < 0.55 else rng.choice([0.1, 0.5]) if u < 0.7 else [rng.choice([None, 0.0, 0.1, 0.5]) for _ in range(order)]
         csp = rng.choice([None, None, 0.1])
         n = rng.choice([0, 1, 1, 1])
-        call = lambda norm: C.call_impl(lambda: non_negative_tucker_hals(X.copy(), list(ranks), n_iter_max=n, init=(core.copy(), [f.copy() for f in Fs]), tol=0,
-                                                                         normalize_factors=norm, fixed_modes=list(fixed), algorithm="fista",
-                                                                         sparsity_coefficients=None if sps is None else list(sps),
+        call = lambda norm: quiet_call(lambda: non_negative_tucker_hals(X.copy(), list(ranks), n_iter_max=n, init=(core.copy(), [f.copy() for f in Fs]), tol=0,
+                                                                         normalize_factors=norm, fixed_modes=None if fixed_raw is None else list(fixed_raw), algorithm="fista",
+                                                                         sparsity_coefficients=sps if not isinstance(sps, list) else list(sps),
                                                                          core_sparsity_coefficient=csp), timeout=120)
         st, r = call(nm)
         if st != "ok" or not finite_all(r[0], *r[1]):
@@ -1120,9 +1179,9 @@ def corr_tucker_hals(rng, tier):
                 # with normalisation the sweep starts from the normalised initialisation: redo the sweep from it without normalising
                 from tensorly.tucker_tensor import tucker_normalize
                 c0, f0 = tucker_normalize((core.copy(), [f.copy() for f in Fs]))
-                st2, r2 = C.call_impl(lambda: non_negative_tucker_hals(X.copy(), list(ranks), n_iter_max=1, init=(np.asarray(c0), [np.asarray(f) for f in f0]), tol=0,
-                                                                       normalize_factors=False, fixed_modes=list(fixed), algorithm="fista",
-                                                                       sparsity_coefficients=None if sps is None else list(sps),
+                st2, r2 = quiet_call(lambda: non_negative_tucker_hals(X.copy(), list(ranks), n_iter_max=1, init=(np.asarray(c0), [np.asarray(f) for f in f0]), tol=0,
+                                                                       normalize_factors=False, fixed_modes=None if fixed_raw is None else list(fixed_raw), algorithm="fista",
+                                                                       sparsity_coefficients=sps if not isinstance(sps, list) else list(sps),
                                                                        core_sparsity_coefficient=csp), timeout=120)
                 if st2 != "ok":
                     continue
@@ -1131,12 +1190,11 @@ def corr_tucker_hals(rng, tier):
                 sv = float(np.linalg.svd(f.T @ f, compute_uv=False)[0])
                 if sv > 0:
                     lr *= 1.0 / sv
-        sps_model = [None] * order if sps is None else [None if m in fixed else sps[m] for m in range(order)]
-        op = (f"(OTkHals {C.qtensor(shape, [float(x) for x in X.reshape(-1)])} {C.qtensor(ranks, [float(x) for x in core.reshape(-1)])} {qmats_lit(Fs)} "
-              f"{opt_list_lit(sps_model)} {C.q(0.0 if csp is None else csp)} {C.boolc(nm)} {C.nat_list(modes)} {C.q(1e-8)} {C.q(lr)} "
+        op = (f"(OTkHalsE {C.qtensor(shape, [float(x) for x in X.reshape(-1)])} {C.qtensor(ranks, [float(x) for x in core.reshape(-1)])} {qmats_lit(Fs)} "
+              f"{optfixed_lit(fixed_raw)} {spopt_lit(sps)} {C.q(0.0 if csp is None else csp)} {C.boolc(nm)} {C.q(1e-8)} {C.q(lr)} "
               f"{C.q_list(fista_betas(n))} {n}%nat {C.q(1e-8)})")
         scale = max(1.0, max(float(np.abs(f).max()) for f in r[1]), float(np.abs(np.asarray(r[0])).max()))
-        meta = {"corr": "non_negative_tucker_hals (fista)", "tensor": X, "core": core, "factors": Fs, "normalize": nm, "fixed": fixed,
+        meta = {"corr": "non_negative_tucker_hals (fista)", "tensor": X, "core": core, "factors": Fs, "normalize": nm, "fixed": fixed_raw,
                 "sparsity": sps, "core_sparsity": csp, "n": n, "lr": lr}
         out.append((op, Fraction(scale) / 10 ** 8, np.asarray(r[0]).reshape(-1), [np.asarray(f) for f in r[1]], meta))
     return out
